@@ -18,7 +18,7 @@
 #include <qb/qbrb.h>
 
 /* ---- test protocol (body behind struct qb_ipc_request_header / response_header) ---- */
-enum { OP_ECHO = 1, OP_NORESP, OP_EVENTS, OP_RATE, OP_DISCONNECT_ME, OP_REF, OP_UNREF, OP_CLOSED_RETRY, OP_BACKOFF, OP_EVENTS_LATER, OP_DESTROY_SERVICE, OP_ITERATE };
+enum { OP_ECHO = 1, OP_NORESP, OP_EVENTS, OP_RATE, OP_DISCONNECT_ME, OP_REF, OP_UNREF, OP_CLOSED_RETRY, OP_BACKOFF, OP_EVENTS_LATER, OP_DESTROY_SERVICE, OP_ITERATE, OP_STALL };
 
 struct tp_req {
 	struct qb_ipc_request_header hdr;
